@@ -101,7 +101,8 @@ contract supportInvalidLabelName
   ensures fresh(result)
   ensures[C02] @labels_shipped_one_to_one len(result) == len(lbls) && (forall i in 0..len(lbls) :: shippedFrom(result[i], lbls[i]))
   modifies nothing
-  loop 1 invariant fresh(res) && len(res) == idx1 && (forall i in 0..idx1 :: shippedFrom(res[i], lbls[i]))
+  loop 1 invariant fresh(res)
+  loop 1 invariant[C02] @labels_shipped_one_to_one len(res) == idx1 && (forall i in 0..idx1 :: shippedFrom(res[i], lbls[i]))
 
 contract targetsFromGroup
   requires tg != nil && cfg != nil
